@@ -375,7 +375,7 @@ POOL_ASSUMES = ["tokio oneshot semantics (5-state model) and FIFO task schedulin
                 "one op = one poll/drop executed atomically (every PoolInner access is under its mutex)",
                 "hyper's is_ready/poll_ready abstracted as open && !busy; an upgraded connection is one that never becomes ready again",
                 "idle expiry uses the real clock: timed cases use 50 ms (or sub-millisecond) timeouts with 5/150 ms sleeps (guard band); every run "
-                "includes the grid of idle lists of 1-3 connections (k oldest expired x any subset closed by the peer, 80 cases)"]
+                "includes the grid of idle lists of 1-3 connections (k oldest expired x any subset closed by the peer, 80 cases; a full list under a small limit expiring as a whole before further releases, 11 cases)"]
 
 def pool_prop(mod, prefixes, theorems, timed=False):
     return {"props_module": mod, "class_prefix": prefixes, "theorems": theorems,
@@ -464,9 +464,12 @@ PROPS = {
         "Hd.Pool.C02_handback_only_when_ready", "Hd.Pool.C02_pop_not_busy", "Hd.Pool.C02_exec_marks_busy"], timed=True),
     "C03": pool_prop("HdModel.Props.C03", ["C03/"], ["Hd.Pool.C03_waiter_only_while_attempt_in_flight", "Hd.Pool.C03_waiter_poll",
         "Hd.Pool.step_waiters", "Hd.Pool.run_waiters", "Hd.Pool.C03_cancel_releases", "Hd.Pool.C03_owner_drop_cancels",
-        "Hd.Pool.C03_released_waiter_resolves", "Hd.Pool.C03_released_dialer_continues", "Hd.Pool.C03_resolves_when_attempt_done"]),
+        "Hd.Pool.C03_released_waiter_resolves", "Hd.Pool.C03_released_dialer_continues", "Hd.Pool.C03_resolves_when_attempt_done",
+        "Hd.Pool.C03_marker_has_running_owner", "Hd.Pool.C03_waiter_waits_for_running_attempt", "Hd.Pool.C03_only_owner_cancels",
+        "Hd.Pool.step_minv", "Hd.Pool.run_minv"]),
     "C04": pool_prop("HdModel.Props.C04", ["C04/"], ["Hd.Pool.C04_reuse_issue", "Hd.Pool.C04_reuse_poll", "Hd.Pool.C04_share_stays_pooled",
-        "Hd.Pool.C04_dedup_issue", "Hd.Pool.C04_dedup_poll", "Hd.Pool.C04_marker_owner", "Hd.Pool.issue_found", "Hd.Pool.issue_missing"]),
+        "Hd.Pool.C04_dedup_issue", "Hd.Pool.C04_dedup_poll", "Hd.Pool.C04_marker_owner", "Hd.Pool.issue_found", "Hd.Pool.issue_missing",
+        "Hd.Pool.C04_one_attempt_per_origin", "Hd.Pool.C04_attempt_ids_distinct", "Hd.Pool.step_minv", "Hd.Pool.run_minv"]),
     "C05": pool_prop("HdModel.Props.C05", ["C05/"], ["Hd.Pool.C05_pop_spec", "Hd.Pool.C05_expired_head", "Hd.Pool.C05_no_timeout_never_expires",
         "Hd.Pool.C05_pop_suffix", "Hd.Pool.C05_issue_fresh"], timed=True),
     "C06": pool_prop("HdModel.Props.C06", ["C06/"], ["Hd.Pool.C06_request_gets_own_origin", "Hd.Pool.C06_held_same_origin",
@@ -474,7 +477,7 @@ PROPS = {
         "Hd.Pool.C06_tokenOf", "Hd.Pool.C06_tokens_distinct", "Hd.Pool.C06_new_conn_origin", "Hd.Pool.keysOk_init"]),
     "C14": pool_prop("HdModel.Props.C14", ["C14/"], ["Hd.Pool.C14_preempt", "Hd.Pool.pushLoop_first_live", "Hd.Pool.C14_keeps_listening",
         "Hd.Pool.C14_continue", "Hd.Pool.C14_discard"]),
-    "C15": pool_prop("HdModel.Props.C15", ["C15/"], ["Hd.Pool.C15_idle_bound", "Hd.Pool.step_idleBound", "Hd.Pool.push_idleBound"]),
+    "C15": pool_prop("HdModel.Props.C15", ["C15/"], ["Hd.Pool.C15_idle_bound", "Hd.Pool.step_idleBound", "Hd.Pool.push_idleBound"], timed=True),
     "C18": {
         "props_module": "HdModel.Props.C18",
         "class_prefix": ["C18/", "C08/bytes-altered"],
